@@ -160,33 +160,30 @@ def judge(E, fs, snap, sizes, expected, protected, layout, shape, tag):
         if under(p, ["/dest"]) and p not in expected:
             node = fs.files.get(p)
             E.check(node is not None and node.content == c, tag + ".unrelated-destination-untouched", "%s was altered" % p)
-    # 3. every mutation is a mkdir under the destination or a whole-file copy of a matching search-directory file
-    rel_by_dest = {d: r for d, (r, c) in expected.items()}
+    # 3. every mutating operation targets the destination (how the bytes get there - copy, chunked write, temporary
+    #    file and rename - is not judged), and every file that appears in the destination sits at a path the metafile
+    #    assigns and has the recorded length
     for entry in fs.log:
-        op = entry[0]
-        if op == "mkdir":
-            E.check(under(entry[1], ["/dest"]), tag + ".only-mkdir-in-destination", "%r" % (entry,))
-        elif op == "copy":
-            src, dst = entry[1], entry[2]
-            E.check(under(src, rw.SEARCH[layout]), tag + ".copy-from-search-dir", "%r" % (entry,))
-            if E.check(dst in rel_by_dest, tag + ".copy-to-assigned-path", "copied to %s which the metafile does not assign" % dst):
-                rel = rel_by_dest[dst]
-                E.check(posixpath.basename(src) == rel.split("/")[-1], tag + ".copy-name-matches", "%r" % (entry,))
-                E.check(snap[0][src].size() == sizes[rel] if src in snap[0] else False, tag + ".copy-size-matches", "%r" % (entry,))
-        elif op == "copy-write":
-            pass        # second half of a copy (logged separately as a fault point)
-        else:
-            E.fail(tag + ".only-copies", "unexpected mutating operation %r" % (entry,))
+        targets = [entry[-1]] if entry[0] in ("copy", "rename", "link") else [entry[1]]
+        for t in targets:
+            if isinstance(t, str) and t.startswith("/"):
+                E.check(under(t, ["/dest"]), tag + ".mutations-only-in-destination", "%r" % (entry,))
+    for p, node in fs.files.items():
+        if under(p, ["/dest"]) and p not in snap[0]:
+            if E.check(p in expected, tag + ".placed-at-assigned-path", "%s appeared, which the metafile does not assign" % p):
+                rel = expected[p][0]
+                E.check(node.content.size() == sizes[rel], tag + ".placed-with-recorded-length", "%s has %r bytes, recorded %r" % (p, node.content.size(), sizes[rel]))
     # 4. nothing placed is a decoy / a patchwork: every file at an assigned path that was created or changed holds
     #    a byte-identical copy of a search-directory file with the recorded name and length
-    sources = [c for p, c in snap[0].items() if under(p, rw.SEARCH[layout])]
+    import posixpath as _pp
     for d, (rel, content) in expected.items():
         node = fs.files.get(d)
         if node is None or not tb(sizes[rel] > 0):
             continue
         if d not in snap[0] or not (node.content == snap[0][d]):
+            sources = [c for p, c in snap[0].items() if under(p, rw.SEARCH[layout]) and _pp.basename(p) == rel.split("/")[-1]]
             E.check(any(node.content == c for c in sources), tag + ".written-file-is-identical-copy",
-                    "%s is not a byte-identical copy of any search-directory file" % d)
+                    "%s is not a byte-identical copy of a search-directory file of that name" % d)
             E.check(not _is_decoy(node.content), tag + ".placed-file-verifies", "%s holds a file none of whose bytes verify against the metafile" % d)
 
 
